@@ -39,3 +39,119 @@ def t_signer_auth(world):
 
 def tasks(tier):
     return [('signer_auth', t_signer_auth)]
+
+
+# ---------------------------------------------------------------- C08.b: every #[derive(Accounts)] constraint set
+from specs.accounts import *
+GOLDEN = json.load(open('/verif/specs/c08_golden.json'))
+
+# instructions where "anyone inside an active receivership" may act (allow_receivership = true): withdraw / repay and the integration withdraws
+ALLOW_RECEIVERSHIP = {'LendingAccountWithdraw', 'LendingAccountRepay', 'KaminoWithdraw', 'DriftWithdraw', 'SolendWithdraw'}
+# user instructions that must obey the authority rule (signer field, account field)
+USER_AUTH = {sn: ('authority', 'marginfi_account') for sn in
+             ['LendingAccountDeposit', 'LendingAccountWithdraw', 'LendingAccountBorrow', 'LendingAccountRepay', 'LendingAccountCloseBalance', 'LendingAccountWithdrawEmissions',
+              'KaminoDeposit', 'KaminoWithdraw', 'DriftDeposit', 'DriftWithdraw', 'SolendDeposit', 'SolendWithdraw']}
+USER_AUTH['LendingAccountLiquidate'] = ('authority', 'liquidator_marginfi_account')
+USER_AUTH['TransferToNewAccount'] = ('authority', 'old_marginfi_account')
+USER_AUTH['TransferToNewAccountPda'] = ('authority', 'old_marginfi_account')
+# strict owner-only instructions (no admin-while-frozen path is required by the property, but owner must sign)
+OWNER_ONLY = {'LendingAccountStartFlashloan': ('authority', 'marginfi_account'), 'LendingAccountEndFlashloan': ('authority', 'marginfi_account'),
+              'MarginfiAccountClose': ('authority', 'marginfi_account'), 'MarginfiAccountUpdateEmissionsDestinationAccount': ('authority', 'marginfi_account')}
+# administrative instructions: (signer field, account field, data path of the role key)
+ADMIN_ROLE = {
+    'LendingPoolConfigureBank': ('admin', 'group', 'admin'), 'LendingPoolConfigureBankOracle': ('admin', 'group', 'admin'), 'LendingPoolSetFixedOraclePrice': ('admin', 'group', 'admin'),
+    'LendingPoolConfigureBankInterestOnly': ('delegate_curve_admin', 'group', 'delegate_curve_admin'), 'LendingPoolConfigureBankLimitsOnly': ('delegate_limit_admin', 'group', 'delegate_limit_admin'),
+    'LendingPoolConfigureBankEmode': ('emode_admin', 'group', 'emode_admin'), 'LendingPoolSetupEmissions': ('delegate_emissions_admin', 'group', 'delegate_emissions_admin'),
+    'LendingPoolUpdateEmissionsParameters': ('delegate_emissions_admin', 'group', 'delegate_emissions_admin'), 'WriteBankMetadata': ('metadata_admin', 'group', 'metadata_admin'),
+    'LendingAccountPurgeDelevBalance': ('risk_admin', 'group', 'risk_admin'), 'LendingPoolForceTokenlessRepayComplete': ('risk_admin', 'group', 'risk_admin'),
+    'StartDeleverage': ('risk_admin', 'group', 'risk_admin'), 'EndDeleverage': ('risk_admin', 'group', 'risk_admin'),
+    'LendingPoolCloseBank': ('admin', 'group', 'admin'), 'LendingPoolWithdrawFees': ('admin', 'group', 'admin'), 'LendingPoolWithdrawInsurance': ('admin', 'group', 'admin'),
+    'LendingPoolUpdateFeesDestinationAccount': ('admin', 'group', 'admin'), 'SetAccountFreeze': ('admin', 'group', 'admin'),
+    'MarginfiGroupConfigure': ('admin', 'marginfi_group', 'admin'), 'ConfigureDeleverageWithdrawalLimit': ('admin', 'marginfi_group', 'admin'),
+    'EditStakedSettings': ('admin', 'marginfi_group', 'admin'), 'InitStakedSettings': ('admin', 'marginfi_group', 'admin'),
+    'LendingPoolAddBank': ('admin', 'marginfi_group', 'admin'), 'LendingPoolAddBankWithSeed': ('admin', 'marginfi_group', 'admin'), 'LendingPoolCloneBank': ('admin', 'marginfi_group', 'admin'),
+    'LendingPoolAddBankKamino': ('admin', 'group', 'admin'), 'LendingPoolAddBankDrift': ('admin', 'group', 'admin'), 'LendingPoolAddBankSolend': ('admin', 'group', 'admin'),
+    'PanicPause': ('global_fee_admin', 'fee_state', 'global_fee_admin'), 'PanicUnpause': ('global_fee_admin', 'fee_state', 'global_fee_admin'),
+    'EditFeeState': ('global_fee_admin', 'fee_state', 'global_fee_admin'), 'ConfigGroupFee': ('global_fee_admin', 'fee_state', 'global_fee_admin'),
+}
+BANK_VAULTS = {'liquidity_vault': 'liquidity_vault', 'bank_liquidity_vault': 'liquidity_vault', 'insurance_vault': 'insurance_vault', 'bank_insurance_vault': 'insurance_vault', 'fee_vault': 'fee_vault'}
+
+
+def mk_struct_task(sn):
+    def task(world):
+        T = all_try_accounts(world)
+        ob = Ob('C08.b.' + sn, f'{sn}: acceptance condition of the Anchor constraint code implies the reference condition (no constraint lost), signer/has_one/PDA rules',
+                [T[sn].name] if sn in T else [], 'loop-free generated code; every accepting path; keys uninterpreted; predicates (pause, authorisation, tags) inlined from their MIR')
+        if sn not in T:
+            ob.fail('instruction struct disappeared from the program'); return [ob]
+        g = GOLDEN.get(sn)
+        if g is None or 'error' in g:
+            ob.notes.append('not decided: no reference condition (struct not supported by the encoder)' if g else 'unclassified instruction (not in the reference table)')
+            if g is None: ob.fail('unclassified instruction struct: add it to the reference table')
+            else: ob.queries = 0
+            return [ob]
+        try:
+            c = ok_condition(world, sn, T[sn])
+        except Exception as e:
+            ob.fail('encoder failed: ' + repr(e)[:200]); return [ob]
+        ob.paths = c['total_paths']
+        phi = c['phi']
+        s = z3.Solver(); s.set('timeout', 60000); s.add(phi); ob.queries += 1
+        if s.check() == z3.sat: ob.witness_sat += 1
+        # (1) field kinds: a Signer must stay a Signer, loaders keep their account type
+        cur = dict(c['fields'])
+        for fname, ftype in g['fields']:
+            if ftype.startswith('init-or-derived'): continue
+            if fname not in cur: ob.fail(f'field {fname} missing'); continue
+            ob.queries += 1
+            if cur[fname] != ftype:
+                ob.sat += 1; ob.cex.append({'ob': ob.oid, 'label': f'account field {fname}: type {ftype} became {cur[fname]}', 'role': f'field-type:{fname}', 'model': {'golden': ftype, 'now': cur[fname]}, 'replay': None})
+            else: ob.unsat += 1
+        # (2) no weakening: new acceptance => golden acceptance
+        decl = decls_for([g['phi'], phi.sexpr()])
+        gphi = z3.parse_smt2_string(f"(assert {g['phi']})", decls=decl)[0]
+        r = ob.prove(None, None, [phi], gphi, 'accepted now => accepted by the reference constraint set', role='weakened', timeout=120000)
+        # (3) rules derived from the property text, independent of the reference snapshot
+        K = lambda n: z3.Int(n)
+        names = [f for f, _ in c['fields']]; types = dict(c['fields'])
+        grp = 'group' if 'group' in names else ('marginfi_group' if 'marginfi_group' in names else None)
+        if grp and types.get(grp, '').startswith('AccountLoader<MarginfiGroup'):
+            for f, t in c['fields']:
+                if t.startswith('AccountLoader<Bank>') or t.startswith('AccountLoader<MarginfiAccount>'):
+                    ob.prove(None, None, [phi], K(f'{f}.data.group') == K(f'{grp}.key'), f'{f} belongs to the presented group (has_one = group)', role=f'has_one-group:{f}')
+        bank_f = [f for f, t in c['fields'] if t.startswith('AccountLoader<Bank>')]
+        if len(bank_f) == 1:
+            b = bank_f[0]
+            for f in names:
+                if f in BANK_VAULTS and not types[f].startswith('init-or-derived'):
+                    vf = BANK_VAULTS[f]
+                    seedbound = z3.Or([K(f'{f}.key') == PDA_CREATE(K('s0'), SEED_KEY(K(f'{b}.key')), K('s2'), K('s3'), K('s4'), K('program_id'))] +
+                                      [K(f'{f}.key') == PDA_FIND(K('s0'), SEED_KEY(K(f'{b}.key')), K('s2'), K('s3'), K('program_id'))])
+                    # the vault is either the key stored in the bank or a PDA whose seeds contain the bank key
+                    s2 = z3.Solver(); s2.set('timeout', 60000); s2.add(phi); s2.add(K(f'{f}.key') != K(f'{b}.data.{vf}'))
+                    s2.add(z3.ForAll([K('s0'), K('s2'), K('s3'), K('s4')], z3.Not(seedbound)))
+                    ob.queries += 1; rr = s2.check()
+                    if rr == z3.unsat: ob.unsat += 1
+                    elif rr == z3.sat: ob.sat += 1; ob.cex.append({'ob': ob.oid, 'label': f'{f} is not bound to the bank (neither bank.{vf} nor a bank-seeded PDA)', 'role': f'vault-binding:{f}', 'model': model_dict(s2.model()), 'replay': None})
+                    else: ob.unknown += 1; ob.notes.append(f'UNKNOWN vault binding {f}')
+        if sn in USER_AUTH or sn in OWNER_ONLY:
+            sf, af = (USER_AUTH.get(sn) or OWNER_ONLY.get(sn))
+            flags = K(f'{af}.data.account_flags'); auth = K(f'{af}.data.authority'); signer = K(f'{sf}.key')
+            recv = (flags / 16) % 2 == 1; frozen = (flags / 64) % 2 == 1
+            admin = K(f'{grp}.data.admin') if grp else z3.IntVal(-7)
+            allowed = z3.Or(z3.And(z3.BoolVal(sn in ALLOW_RECEIVERSHIP), recv), z3.And(frozen, signer == admin), z3.And(z3.Not(frozen), signer == auth)) if sn in USER_AUTH else (signer == auth)
+            ob.prove(None, None, [phi], allowed, 'signer is the authority (or group admin while frozen' + (', or anyone inside receivership)' if sn in ALLOW_RECEIVERSHIP else ')'), role='authority-rule')
+            ob.prove(None, None, [phi], z3.BoolVal(types.get(sf, '').startswith('Signer')), f'{sf} is an Anchor Signer', role='signer-kind')
+        if sn in ADMIN_ROLE:
+            sf, af, path = ADMIN_ROLE[sn]
+            ob.prove(None, None, [phi], K(f'{sf}.key') == K(f'{af}.data.{path}'), f'signed by the role it names ({af}.{path})', role='admin-role')
+            ob.prove(None, None, [phi], z3.BoolVal(types.get(sf, '').startswith('Signer')), f'{sf} is an Anchor Signer', role='signer-kind')
+        ob.need_witness()
+        return [ob]
+    return task
+
+
+_t0 = tasks
+def tasks(tier):
+    return _t0(tier) + [('accounts:' + sn, mk_struct_task(sn)) for sn in sorted(set(GOLDEN) | set())]
+WORLD = ('marginfi', 'typecrate', 'drift', 'kamino', 'solend')
